@@ -102,6 +102,10 @@ def generate(ctx):
     for a in range(0, 4):
         for b in range(0, 7):
             yield Case('while', '%d %d 50' % (a, b), {'kind': 'while'})
+    # \\whiledo whose test is a full expression: `\\( \\value{w} < b \\) \\and <tree>`; iterations = (b - a if tree true else 0)
+    for i in range(n // 10):
+        a, b = rng.randint(0, 3), rng.randint(0, 6)
+        yield Case('doc', ' '.join(gen_expr(rng, rng.randint(0, 3))), {'kind': 'dwhile', 'seed': rng.randrange(1 << 30), 'a': a, 'b': b})
 
 
 def corpus():
@@ -237,6 +241,18 @@ def impl(case, aux):
         if (t, f) == (1, 0): return 'ok:true'
         if (t, f) == (0, 1): return 'ok:false'
         return 'bad-branches:%d:%d' % (t, f)
+    if kind == 'dwhile':
+        rng = random.Random(case.meta['seed'])
+        s, _ = expr_tex(case.line.split(), 0, rng)
+        a, b = case.meta['a'], case.meta['b']
+        guard = rng.choice(['\\( \\value{w}<%d \\) \\and \\( %s \\)', '\\value{w}<%d \\and \\( %s \\)', '\\not \\( \\value{w}>%d \\or \\value{w}=%d \\) \\and \\( %s \\)'])
+        test = guard % ((b, s) if guard.count('%d') == 1 else (b, b, s))
+        case.meta['tex'] = test
+        try:
+            txt = parse_doc('\\newcounter{w}\\setcounter{w}{%d}\\whiledo{%s}{\\stepcounter{w}X}DONE' % (a, test))
+        except Exception as e:
+            return canon_exc(e)
+        return 'iters:%d:%d' % (txt.count('X'), txt.count('DONE'))
     if kind == 'while':
         a, b, _ = case.line.split()
         try:
@@ -249,7 +265,12 @@ def impl(case, aux):
 
 
 def judge(o):
-    if o.case.stream == 'doc':
+    if o.case.meta.get('kind') == 'dwhile':
+        a, b = o.case.meta['a'], o.case.meta['b']
+        exp = 'iters:%d:1' % (max(0, b - a) if o.spec == 'ok:true' else 0)
+        o.corr_ok = o.prop_ok = (o.impl == exp and o.model == o.spec)
+        o.spec = exp
+    elif o.case.stream == 'doc':
         # the document spelling goes through atom macros; the model is compared on the truth value only
         o.corr_ok = (o.impl == o.model)
         o.prop_ok = (o.impl == o.spec)
